@@ -2123,6 +2123,7 @@ fn mix_for(property: &str) -> Mix {
         "C05" => Mix { bp: 12, rm: 3, cont: 25, stepi: 30, step: 10, next: 5, finish: 10, restart: 0, call: 0, watch: 0, end: 0, mem: 0, sel: 18, sig: 0 },
         "C11" => Mix { bp: 20, rm: 6, cont: 30, stepi: 6, step: 5, next: 5, finish: 5, restart: 5, call: 2, watch: 5, end: 8, mem: 0, sel: 0, sig: 0 },
         "C14" => Mix { bp: 8, rm: 2, cont: 18, stepi: 6, step: 2, next: 2, finish: 6, restart: 6, call: 0, watch: 48, end: 2, mem: 0, sel: 0, sig: 0 },
+        "C18" => Mix { bp: 28, rm: 10, cont: 40, stepi: 8, step: 3, next: 3, finish: 4, restart: 2, call: 0, watch: 0, end: 1, mem: 0, sel: 2, sig: 0 },
         "C15" => Mix { bp: 12, rm: 3, cont: 16, stepi: 5, step: 3, next: 3, finish: 4, restart: 1, call: 0, watch: 0, end: 1, mem: 52, sel: 0, sig: 0 },
         "C16" => Mix { bp: 14, rm: 4, cont: 22, stepi: 8, step: 5, next: 5, finish: 5, restart: 1, call: 34, watch: 1, end: 1, mem: 0, sel: 0, sig: 0 },
         _ => Mix { bp: 16, rm: 8, cont: 22, stepi: 8, step: 10, next: 10, finish: 10, restart: 3, call: 5, watch: 10, end: 3, mem: 0, sel: 0, sig: 3 },
@@ -2431,6 +2432,16 @@ pub fn run(spec: &WorkerSpec) -> WorkerResult {
     let mut stats = s.stats.clone();
     add(&mut stats, "positions", tr.pos.len() as u64);
     add(&mut stats, "time_us.total", t_all.elapsed().as_micros() as u64);
+    if spec.property == "C18" {
+        // address-based behaviour must not depend on the load address: every oracle that holds
+        // for the PIE build is C18's oracle for the non-PIE build of the same program
+        for v in s.violations.iter_mut() {
+            if matches!(v.property.as_str(), "C01" | "C02" | "C05" | "C11") {
+                v.invariant = format!("nonpie_{}_{}", v.property.to_lowercase(), v.invariant);
+                v.property = "C18".into();
+            }
+        }
+    }
     let verdict = if s.violations.is_empty() { "ok" } else { "violation" };
     WorkerResult { verdict: verdict.into(), violations: s.violations.clone(), detail: String::new(), log: s.log.clone(), tape: tape.rec.clone(), stats, ops: s.step_no, seam_calls: seam::N_PTRACE.load(std::sync::atomic::Ordering::Relaxed) + seam::N_WAIT.load(std::sync::atomic::Ordering::Relaxed) }
 }
